@@ -42,6 +42,7 @@ from engines import pyfacts as pf
 from engines import sqlfront as sf
 from engines import sqlrules as sr
 from engines.common import AnalysisError, AnchorRemoved, Ctx
+from engines.common import read_repo as common_read
 from engines.sqlast import N, text
 
 META = dict(
@@ -489,43 +490,49 @@ def r7(ctx: Ctx, prog: sf.SqlProgram) -> None:
 
 
 def r9(ctx: Ctx) -> None:
-    """The status the API reports is read from the database by the request that reports it (engines/c0506facts.py part 3).  Completion and
+    """The status the service reports is read from the database by the request that reports it (engines/c0506facts.py part 3).  Completion and
     the counts live in the database and change under the readers' feet (commit_batch_update re-opens a complete batch, other replicas
     commit / cancel / complete): a status dict that is kept in state that outlives the request - an app[...] entry, a module-level or
-    class-level container, the memo of a caching decorator or cache object - and served again is a report that does not reflect the jobs.
-    Decided by provenance (def-use dataflow, helpers of the module followed): (a) the record handed to batch_record_to_dict /
-    job_group_record_to_dict is the result of a query executed on the database handle in the same invocation; (b) no reader - a function
-    that calls a converter, or that calls / passes on such a function, up to the HTTP handlers - returns a value read back from a
-    retained object into which the module stores status dicts (or that is built around a reader, like Cache(loader)); (c) no reader,
-    and no converter, is wrapped by a memoising decorator."""
+    class-level container, a module name re-bound through `global`, a function attribute, a mutable parameter default, the variables of a
+    decorator / factory, the memo of a caching decorator or cache object - and served again is a report that does not reflect the jobs.
+    Decided by provenance (def-use dataflow; helpers followed through function summaries instantiated per call site; WHO MAY STORE into a
+    retained object decided interprocedurally: a helper's parameter is whatever its call sites pass, decorator applications included):
+    (a) the record handed to batch_record_to_dict / job_group_record_to_dict is the result of a query executed on the database handle in
+    the same invocation; (b) no reader - a function that calls a converter, or that calls / passes on such a function, up to the HTTP
+    handlers, and any function that answers from a retained object holding status - returns a value read back from a retained object into
+    which the module stores status dicts, fields of a status row, or a loader built around a reader; (c) no reader, and no converter, is
+    wrapped by a memoising decorator; (d) the converters themselves answer from their argument only; (e) reporters that return nothing
+    (the driver's callback notifications) do not send a value read back from such an object.  Every module of batch/batch that mentions
+    a converter is analysed."""
     rel = 'batch/batch/front_end/front_end.py'
     m = pf.load(rel)
     findings, sp = cf.check_status_provenance(m)
     for want in ('_get_batch', '_get_job_group'):
-        ctx.need(any(sp.qual[i] == want for i in sp.direct), f'{rel}::{want} no longer calls a record -> dict converter (status readers not recognised)')
+        ctx.need(any(sp.qual[i] == want for i in sp.readers), f'{rel}::{want} no longer reaches a record -> dict converter (status readers not recognised)')
     bm = pf.load('batch/batch/batch.py')
+    results = [(m, f) for f in findings]
     for fname in cf.CONVERTERS:
         dec = cf.memo_decorator(bm.func(fname))
         ctx.check(dec is None, 'R9', f'{bm.rel}::{fname}::not memoised', f'{fname} is wrapped by @{dec}: the reported dict is remembered per process instead of being rebuilt from the record read by the request', bm.path, bm.func(fname).lineno)
-    extra = []
-    if ctx.tier == 'thorough':
-        for r2 in pf.walk_py(['batch/batch']):
-            if r2 == rel:
-                continue
-            m2 = pf.load(r2)
-            if not any(c in m2.src for c in cf.CONVERTERS) or r2 == bm.rel:
-                continue
-            extra += [(m2, f) for f in cf.check_status_provenance(m2)[0] if f.status == 'bad']
-    undec = [f for f in findings if f.status == 'undecided']
+        results.append((bm, cf.check_converter_pure(bm, fname)))
+    n_readers = len(sp.readers)
+    for r2 in pf.walk_py(['batch/batch']):
+        if r2 in (rel, bm.rel) or not any(c in common_read(r2) for c in cf.CONVERTERS):
+            continue
+        m2 = pf.load(r2)
+        f2, sp2 = cf.check_status_provenance(m2)
+        results += [(m2, f) for f in f2]
+        n_readers += len(sp2.readers)
+    undec = [f for _, f in results if f.status == 'undecided']
     anybad = False
-    for mod, f in [(m, f) for f in findings] + extra:
+    for mod, f in results:
         if f.status == 'ok':
             ctx.ok('R9', f.construct, f.message)
         elif f.status == 'bad':
             anybad = True
             ctx.bad('R9', f.construct, f.message, mod.path, f.line)
     ctx.need(not undec or anybad, (undec[0].construct + ': ' + undec[0].message) if undec else '')
-    ctx.unit('status_readers', len(sp.readers))
+    ctx.unit('status_readers', n_readers)
 
 
 def run(ctx: Ctx) -> None:
